@@ -70,7 +70,7 @@ Proof. vm_compute. reflexivity. Qed.
    the real code's behaviour that no Gallina term defines; the harness samples it *)
 Definition C29_statement (exhibits : case -> Prop) : Prop :=
   forall K, exhibits K ->
-    k_deadlock K = false /\ k_panic K = false /\
+    k_deadlock K = false /\ k_panic K = false /\ k_race K = false /\
     quiescent_check K = [] /\                                     (* handle table, caches and probe round agree with the backend *)
     (k_mode K = 0 -> linearizable K) /\                           (* distinct names, minimal TTL *)
     (k_mode K = 1 -> forall a, In a (k_ops K) -> b_op_ok K a = true).   (* caches on: stale but real *)
